@@ -46,6 +46,9 @@ func c18Setup() *c18Env {
 	}
 	root := filepath.Join(p, "export")
 	os.WriteFile(filepath.Join(p, "export-sibling"), []byte(c18Marker+"sib"), 0o644)
+	// a neighbour directory whose name merely continues the spelling of the export's
+	os.MkdirAll(filepath.Join(p, "export-sibdir", "canarydir"), 0o755)
+	os.WriteFile(filepath.Join(p, "export-sibdir", "canary"), []byte(c18Marker+"sibdir"), 0o644)
 	os.MkdirAll(filepath.Join(root, "d", "dd"), 0o755)
 	os.WriteFile(filepath.Join(root, "x"), []byte("inside x"), 0o644)
 	os.WriteFile(filepath.Join(root, "d", "y"), []byte("inside y"), 0o644)
@@ -149,7 +152,13 @@ func c18Scenario(use string, dotu bool, part, parts int) Scenario {
 		names := c18Names()
 		// absolute host paths: the export itself, its spelling as a prefix, its neighbours
 		up := filepath.Dir(env.root)
-		names = append(names, env.root, env.root+"/", env.root+"/..", env.root+"/../x", env.root+"-sibling", env.root+"/d/../..", up, up+"/x", up+"/canary", "/etc", "/")
+		names = append(names, env.root, env.root+"/", env.root+"/..", env.root+"/../x", env.root+"-sibling", env.root+"-sibdir", env.root+"-sibdir/canary", env.root+"/d/../..", up, up+"/x", up+"/canary", "/etc", "/")
+		// relative spellings of the neighbours that share the export's name as a prefix
+		for _, pre := range []string{"../", "/../", "d/../../", "./../", "../../n12/"} {
+			for _, sib := range []string{"export-sibling", "export-sibdir", "export-sibdir/", "export-sibdir/canary", "export-sibdir/new", "exportx", "export"} {
+				names = append(names, pre+sib)
+			}
+		}
 		seen := map[string]bool{}
 		fail := func(sig, msg string) {
 			if !seen[sig] && len(res.Findings) < 8 {
@@ -379,7 +388,7 @@ func init() {
 	_ = vs.Active
 	register(&Property{ID: "C18", Level: "exploration",
 		Technique: "bounded-exhaustive enumeration of hostile names in every position, executed on the real Ufs over a scratch export with canaries outside",
-		Rule:      "names = every sequence of <= 3 components over {'..', '.', '', 'x' (file), 'd' (directory), 'nope'} joined by '/', with and without leading and trailing '/', plus 4- and 5-level '..' chains and 11 absolute host paths (the export, its spelling as a prefix of a sibling, its parent and neighbours, '/etc', '/') (about 1000 names), used as attach name, single walk element and element list (<= 4, plus two more '..') from the root and from depth 1 and 2, create name for files, directories, symlinks and hard links, and wstat rename target; every resulting fid is then stat'ed, walked towards the canaries, listed/read, written, created in, wstat'ed and removed. Oracle: nothing outside the export changes (names, contents, modes, mtimes), no reply carries a qid or data of an outside object, '..' at the root is the root. non-trivial = names x uses executed",
+		Rule:      "names = every sequence of <= 3 components over {'..', '.', '', 'x' (file), 'd' (directory), 'nope'} joined by '/', with and without leading and trailing '/', plus 4- and 5-level '..' chains and 11 absolute host paths (the export, its spelling as a prefix of a sibling file and of a sibling directory (absolute and through '..'), its parent and neighbours, '/etc', '/') (about 1000 names), used as attach name, single walk element and element list (<= 4, plus two more '..') from the root and from depth 1 and 2, create name for files, directories, symlinks and hard links, and wstat rename target; every resulting fid is then stat'ed, walked towards the canaries, listed/read, written, created in, wstat'ed and removed. Oracle: nothing outside the export changes (names, contents, modes, mtimes), no reply carries a qid or data of an outside object, '..' at the root is the root. non-trivial = names x uses executed",
 		Assumptions: []string{"the export is nested 12 levels below the scratch base, deeper than any generated '..' chain (the checks run as root on the real file system)", "the exported tree contains no symlink leaving it (the property's premise); symlink targets supplied by the client are not followed by the check"},
 		Scenarios:   c18Scenarios, QuickS: 110, ThoroughS: 900})
 }
